@@ -194,6 +194,10 @@ func runC03(c *kit.Ctx) {
 	// ---- R1 ---------------------------------------------------------------
 	c.StartRule("R1", "single failure transition under failOnce", 4)
 	noBlockingWhileLocked(c, true, [3]string{"region", "client", "fail"})
+	deferredCallsSeeTheCurrentValue(c)
+	claimedCallIsCompletedOnce(c)
+	sendFailsOnlyRegisteredCalls(c)
+	noRecursiveLocking(c)
 	connectionClosedWhicheverComesFirst(c)
 	failureTransition(c)
 
@@ -491,6 +495,8 @@ func runC03(c *kit.Ctx) {
 	readerEndsOnlyWhenTheConnectionFailed(c)
 	exceptionTableOracle(c)
 	readerErrorsAreFatal(c, recv)
+	headerExceptionIsClassified(c)
+	fatalExceptionAlwaysFailsTheConnection(c)
 	decodeErrorsKeepTheConnection(c)
 	// direct completions in receive (outside the deferred one) happen on connection failures:
 	// they and the error returned with them must be of the connection-level class
@@ -499,9 +505,16 @@ func runC03(c *kit.Ctx) {
 		good := isServerErrorValue(p, ev)
 		// the function must then return a ServerError as well (so that the reader loop fails the client)
 		if good {
-			e := kit.PathFrom(call, kit.PathQuery{Target: func(x ssa.Instruction) bool {
+			e := kit.PathFrom(call, kit.PathQuery{TargetPath: func(x ssa.Instruction, path []*ssa.BasicBlock) bool {
 				r, ok := x.(*ssa.Return)
-				return ok && !isServerErrorValue(p, returnedError(r))
+				if !ok {
+					return false
+				}
+				rv := returnedError(r)
+				if rv != nil {
+					rv = kit.ResolveAlong(rv, path)
+				}
+				return !isServerErrorValue(p, rv)
 			}})
 			good = e == nil
 		}
